@@ -96,7 +96,7 @@ def lib_call_sites(prog: Program, funcs: List[FuncInfo]):
             if not isinstance(root, ast.Name) or (root.id in shadow and root.id not in local_imports):
                 continue
             r = prog.resolve_expr(fi.module, n.func, local_imports)
-            if r is not None and r[0] == 'lib':
+            if r is not None and r[0] == 'lib' and r[1].split('.')[0] not in {m_.split('.')[0] for m_ in prog.modules}:
                 yield fi, n, r[1]
 
 
@@ -116,7 +116,8 @@ def lib_refs(prog: Program, funcs: List[FuncInfo]):
                     chain = chain.value
                 if isinstance(chain, ast.Name) and chain.id not in shadow:
                     r = prog.resolve_expr(fi.module, n)
-                    if r is not None and r[0] == 'lib':
+                    # (an attribute of one of the repository's own classes / modules is not a library reference: it is looked up in the analysed tree)
+                    if r is not None and r[0] == 'lib' and r[1].split('.')[0] not in {m_.split('.')[0] for m_ in prog.modules}:
                         yield fi, n, r[1]
 
 
